@@ -132,6 +132,27 @@ func c19Run(c *fw.Case, n int) {
 			polls = 1
 		}
 		st := &fakeStream{ctx: context.Background(), in: msgs}
+		// a named target may lose its southbound connection between the subscription and a poll: the other
+		// targets are still polled and the subscriber keeps its stream
+		lost := ""
+		conns := map[string]*world.Conn{}
+		for _, t := range targets {
+			conns[t] = c19Conn(w, t)
+		}
+		if (seqKind == 1 || seqKind == 2) && ok && len(want) >= 2 && r.Chance(1, 3) {
+			var named []string
+			for t := range want {
+				named = append(named, t)
+			}
+			sort.Strings(named)
+			lost = named[r.Intn(len(named))]
+			st.beforeRecv = func(n int) {
+				if n == 1 {
+					w.Disconnect(lost)
+				}
+			}
+			c.Count("streams_with_a_target_lost_before_a_poll", 1)
+		}
 		var serr error
 		guarded(c, "Subscribe", nil, func() { serr = w.Cur().Server.Subscribe(subStream{st}) })
 		if c.Violated() {
@@ -163,7 +184,7 @@ func c19Run(c *fw.Case, n int) {
 		// exactly the named targets received exactly their entries
 		var tnames []string
 		for _, t := range targets {
-			conn := c19Conn(w, t)
+			conn := conns[t]
 			exp := want[t]
 			if exp == nil {
 				if len(conn.Subs) != 0 || conn.Polls != 0 {
@@ -182,15 +203,19 @@ func c19Run(c *fw.Case, n int) {
 				fail("subscribe/entries-or-options-differ", "target %s received\n  %v\nthe reference split gives\n  %v", t, conn.Subs[0], exp)
 				return
 			}
-			if conn.Polls != polls {
-				fail("subscribe/poll-fanout", "target %s received %d polls, expected %d", t, conn.Polls, polls)
+			wantPolls := polls
+			if t == lost {
+				wantPolls = 0
+			}
+			if conn.Polls != wantPolls {
+				fail("subscribe/poll-fanout", "target %s received %d polls, expected %d (target that lost its connection before the poll: %q)", t, conn.Polls, wantPolls, lost)
 				return
 			}
 		}
 		// relay: what a target sends is what the subscriber gets, verbatim
 		sort.Strings(tnames)
 		for k, t := range tnames {
-			conn := c19Conn(w, t)
+			conn := conns[t]
 			resp := &gnmi.SubscribeResponse{Response: &gnmi.SubscribeResponse_Update{Update: &gnmi.Notification{Timestamp: int64(1000*i + k),
 				Prefix: &gnmi.Path{Target: t}, Update: []*gnmi.Update{{Path: refmodel.MustParse("/foo").ToGNMI(""), Val: refmodel.S(fmt.Sprintf("from-%s-%d", t, i)).ToGNMI()}}}}}
 			before := len(st.sent)
@@ -203,6 +228,9 @@ func c19Run(c *fw.Case, n int) {
 				fail("subscribe/relay-not-verbatim", "the response from %s was not relayed verbatim (sent %d messages)", t, len(st.sent)-before)
 				return
 			}
+		}
+		if lost != "" {
+			w.Connect(lost)
 		}
 	}
 	c.Class("streams")
